@@ -203,8 +203,10 @@ def op_text(st):
     return "%s(%s)" % (st["op"], abstract(st["p"]))
 
 
-def replay_history(w, root, hist, rep_case=None):
-    """Replay one history in the fresh directory root. Returns None or (signature, detail) of the first disagreement."""
+def replay_history(w, root, hist, rep_case=None, observe_all=True):
+    """Replay one history in the fresh directory root. Returns None or (signature, detail) of the first disagreement.
+    After every step the outcome and the real tree are compared; the observer predicates are run after every step
+    (observe_all) or after the last step only."""
     os.makedirs(root)
     realroot = os.path.realpath(root)
     prev_obs = None
@@ -224,7 +226,8 @@ def replay_history(w, root, hist, rep_case=None):
             nmut = len(steps)
             # observers on every pool path, the root, and the path texts for path_canonical
             plan = []
-            for o in st["obs"]:
+            observe = observe_all or si == len(hist) - 1
+            for o in (st["obs"] if observe else []):
                 ap = root + "/" + rel(o["p"].split("/"))
                 plan.append(("fe", o, ap)); steps.append({"q": "file_exists(%s)." % pstr(ap), "max": 2})
                 plan.append(("de", o, ap)); steps.append({"q": "directory_exists(%s)." % pstr(ap), "max": 2})
@@ -233,11 +236,12 @@ def replay_history(w, root, hist, rep_case=None):
                     plan.append(("size_eq", o, ap)); steps.append({"q": "file_size(%s, %d)." % (pstr(ap), o["size"]), "max": 2})
                     plan.append(("size_ne", o, ap)); steps.append({"q": "file_size(%s, %d)." % (pstr(ap), o["size"] + 1), "max": 2})
                 plan.append(("files", o, ap)); steps.append({"q": "directory_files(%s, Fs)." % pstr(ap), "max": 2})
-            plan.append(("rootfiles", st["rootfiles"], root)); steps.append({"q": "directory_files(%s, Fs)." % pstr(root), "max": 2})
-            for c in st["canon"]:
+            if observe:
+                plan.append(("rootfiles", st["rootfiles"], root)); steps.append({"q": "directory_files(%s, Fs)." % pstr(root), "max": 2})
+            for c in (st["canon"] if observe else []):
                 ap = root + "/" + rel(c["segs"])
                 plan.append(("canon", c, ap)); steps.append({"q": "path_canonical(%s, C)." % pstr(ap), "max": 2})
-            res = w.job(steps)
+            res = w.job(steps) if steps else []
             if res is None:
                 w.start()
                 return ("harness stalled or died at %s" % where, {"history": hist, "step": si})
@@ -424,7 +428,7 @@ def kind_before(prev_obs, segs):
     return "?"
 
 
-def run_histories(rep, hists, binary, tag):
+def run_histories(rep, hists, binary, tag, observe_all=True):
     """replay all histories on 8 threads; returns number replayed"""
     lock = threading.Lock()
     nxt = [0]
@@ -450,7 +454,7 @@ def run_histories(rep, hists, binary, tag):
                     break
                 root = os.path.join(common.WORK, "fs-%d-%s%d-%d" % (common.seed(), tag, os.getpid(), i))
                 shutil.rmtree(root, ignore_errors=True)
-                v = replay_history(w, root, hists[i], case)
+                v = replay_history(w, root, hists[i], case, observe_all)
                 if v is not None:
                     with lock:
                         rep.violation(v[0], v[1])
@@ -494,10 +498,12 @@ def run(tier):
     if not hists or pure is None:
         raise common.ToolError("no histories generated")
     hists.sort(key=lambda h: json.dumps([[s["op"], s["p"], s["q"], s["n"]] for s in h]))
-    n = run_histories(rep, hists, binary, "b")
+    # every tree explored by the BFS is also the tree after the last step of some history, so in the thorough tier the
+    # observers run after the last step only (the outcome and the real tree are still compared after every step)
+    n = run_histories(rep, hists, binary, "b", observe_all=(tier == "quick"))
     if tier == "thorough":
-        nw = 400
-        wres = run_tlc("MC_C48", "MC_C48_walk.cfg", workers=1, timeout=3600, simulate=nw, depth=26)
+        nw = 300
+        wres = run_tlc("MC_C48", "MC_C48_walk.cfg", workers=1, timeout=3600, simulate=nw, depth=27)
         if wres.error and wres.generated == 0:
             raise common.ToolError("C48 simulation failed: %s" % wres.error)
         if wres.violated:
